@@ -94,6 +94,27 @@ def _eliminate_returns(stmts, ret_name):
     return out
 
 
+def _cm_shape(fn):
+    """(pre statements, yielded expr or None, finally statements or None, post statements) of a simple generator CM."""
+    a = fn.args
+    if a.vararg or a.kwarg:
+        return None
+    yields = [x for x in ast.walk(fn) if isinstance(x, (ast.Yield, ast.YieldFrom))]
+    if len(yields) != 1 or isinstance(yields[0], ast.YieldFrom):
+        return None
+    body = [s for s in fn.body if not (isinstance(s, ast.Expr) and isinstance(s.value, ast.Constant) and isinstance(s.value.value, str))]
+    for i, st in enumerate(body):
+        if isinstance(st, ast.Expr) and st.value is yields[0]:
+            if any(isinstance(x, ast.Return) for s2 in body for x in ast.walk(s2)):
+                return None
+            return body[:i], yields[0].value, None, body[i + 1 :]
+        if isinstance(st, ast.Try) and not st.handlers and not st.orelse and len(st.body) == 1 and isinstance(st.body[0], ast.Expr) and st.body[0].value is yields[0]:
+            if body[i + 1 :] or any(isinstance(x, ast.Return) for s2 in body for x in ast.walk(s2)):
+                return None
+            return body[:i], yields[0].value, st.finalbody, []
+    return None
+
+
 class _Rename(ast.NodeTransformer):
     def __init__(self, mapping):
         self.mapping = mapping
@@ -119,6 +140,13 @@ class Inliner:
             self._collect(st, None, known)
         self.counter = 0
         self.inlined = []  # (helper key, caller name, lineno)
+        # generator-based context managers (``@contextlib.contextmanager``) with one top-level ``yield``
+        self.cm_helpers = {}
+        for st in tree.body:
+            if isinstance(st, ast.FunctionDef) and st.name not in known and len(st.decorator_list) == 1 and ast.unparse(st.decorator_list[0]) in ("contextlib.contextmanager", "contextmanager"):
+                shape = _cm_shape(st)
+                if shape is not None:
+                    self.cm_helpers[st.name] = (st, shape)
 
     def _collect(self, st, cls, known):
         if isinstance(st, (ast.FunctionDef, ast.AsyncFunctionDef)):
@@ -215,6 +243,58 @@ class Inliner:
             ast.fix_missing_locations(s)
         return stmts, ret_name
 
+    def _expand_cm(self, st, cls, caller_async, caller_name, depth):
+        """``with cm(args) as x: body`` -> bind params; pre; [x = yielded]; try: body finally: fin   (or body; post)."""
+        call = st.items[0].context_expr
+        fn, (pre, yielded, fin, post) = self.cm_helpers[call.func.id]
+        if any(isinstance(a, ast.Starred) for a in call.args) or any(kw.arg is None for kw in call.keywords):
+            return None
+        self.counter += 1
+        k = self.counter
+        a = fn.args
+        params = [x.arg for x in a.posonlyargs + a.args] + [x.arg for x in a.kwonlyargs]
+        defaults = dict(zip([x.arg for x in a.posonlyargs + a.args][len(a.posonlyargs + a.args) - len(a.defaults) :], a.defaults))
+        for x, d in zip(a.kwonlyargs, a.kw_defaults):
+            if d is not None:
+                defaults[x.arg] = d
+        bound = {}
+        pos = [x.arg for x in a.posonlyargs + a.args]
+        if len(call.args) > len(pos):
+            return None
+        for p_, arg in zip(pos, call.args):
+            bound[p_] = arg
+        for kw in call.keywords:
+            if kw.arg not in params or kw.arg in bound:
+                return None
+            bound[kw.arg] = kw.value
+        for p_ in params:
+            if p_ not in bound:
+                if p_ in defaults:
+                    bound[p_] = defaults[p_]
+                else:
+                    return None
+        locals_ = set(params)
+        for sub in ast.walk(fn):
+            if isinstance(sub, ast.Name) and isinstance(sub.ctx, (ast.Store, ast.Del)):
+                locals_.add(sub.id)
+        mapping = {n: "%s__i%d" % (n, k) for n in locals_}
+        ren = _Rename(mapping)
+        cp = lambda stmts: [ren.visit(copy.deepcopy(s_)) for s_ in stmts]
+        out = [ast.copy_location(ast.Assign(targets=[ast.Name(id=mapping[p_], ctx=ast.Store())], value=bound[p_]), st) for p_ in params]
+        out += cp(pre)
+        if st.items[0].optional_vars is not None:
+            val = ren.visit(copy.deepcopy(yielded)) if yielded is not None else ast.Constant(value=None)
+            out.append(ast.copy_location(ast.Assign(targets=[st.items[0].optional_vars], value=val), st))
+        body = self._rewrite_block(st.body, cls, caller_async, caller_name, depth)
+        if fin is not None:
+            out.append(ast.copy_location(ast.Try(body=body, handlers=[], orelse=[], finalbody=cp(fin)), st))
+        else:
+            out += body + cp(post)
+        for s_ in out:
+            ast.fix_missing_locations(s_)
+        self.inlined.append((call.func.id, caller_name, getattr(st, "lineno", 0)))
+        return out
+
     def _rewrite_block(self, stmts, cls, caller_async, caller_name, depth):
         out = []
         for st in stmts:
@@ -262,6 +342,10 @@ class Inliner:
                 if kind == "if":
                     new = ast.copy_location(ast.If(test=ret, body=self._rewrite_block(st.body, cls, caller_async, caller_name, depth), orelse=self._rewrite_block(st.orelse, cls, caller_async, caller_name, depth)), st)
                     return stmts + [ast.fix_missing_locations(new)]
+        if isinstance(st, ast.With) and len(st.items) == 1 and isinstance(st.items[0].context_expr, ast.Call) and isinstance(st.items[0].context_expr.func, ast.Name) and st.items[0].context_expr.func.id in self.cm_helpers and depth < MAX_DEPTH:
+            exp = self._expand_cm(st, cls, caller_async, caller_name, depth)
+            if exp is not None:
+                return exp
         # recurse into compound statements
         for field in ("body", "orelse", "finalbody"):
             if hasattr(st, field) and isinstance(getattr(st, field), list):
@@ -272,7 +356,7 @@ class Inliner:
         return [st]
 
     def run(self):
-        if not self.helpers:
+        if not self.helpers and not self.cm_helpers:
             return self.tree
 
         def top(stmts, cls):
